@@ -53,7 +53,7 @@ CHECKS = {
         level="model_checking",
         engine="E2-bcmc",
         technique="explicit-state model checking of compiled instruction streams under an abstract VM (all control-flow paths), bound to the real VM by trace conformance through verif_hooks probes",
-        text="For every generated program (complete depth-1 space with blocks, includes, macros, call blocks, set/filter/autoescape/with blocks, recursive and filtered loops and break/continue, in three wrappings: plain with sentinel text, as child block under extends, as included template; a third of the depth-2 space quick / all of it plus a stride of depth 3 thorough; 17 hand-written shapes; a scope-contents family (6 scope-opening constructs alone and in pairs x 10 carriers that open no scope of their own - if/else arms, else bodies of empty and fully filtered loops, filter, autoescape, combinations - x 5 ways of binding a shadowing and a new name: afterwards the shadowed name must be back and the new one gone); every way of leaving a loop by break / continue, unconditional and conditional, through every sequence of 1..2 (thorough 3) nested scoped constructs out of {with, set block, filter block, autoescape on, autoescape off, if, call block}) each instruction stream and each entry point (main, every block, every macro body) is explored exhaustively by BFS over abstract states (pc, operand stack of Opaque|Int, frame kinds with loop iteration count and recursion return, capture stack, auto-escape depth, extends-pending, recursion depth) with every conditional jump, short-circuit jump and Iterate taken both ways; invariants on every state/transition: frame/capture/escape pops hit something the same evaluation pushed and of the right kind, no operand pop below the entry height, everything balanced at every end, every reachable state can reach an end. The model is bound to the code: each program is rendered under 3 contexts with probes recording every executed instruction, and every concrete trace must be a path of the explored abstract graph (same pc, operand height, frame kinds, capture and auto-escape depth at every step); real evaluations must also leave frames, captures and the auto-escape mode as they found them and a sentinel after the outermost construct must reach the output. The abstract machine also requires that no operand is left on the stack when a stream ends (the undefined left by a discarding capture excepted), and the hand-written shapes include recursive loops with else branches. Handled errors (630 programs): 7 callees (macros failing deep inside nested constructs or in a nested macro, a macro recursing until the limit refuses it, blocks rendered through the state, two succeeding controls) are called by a host function that swallows the failure, from 6 kinds of places (with+for, set block under a filter, macro body, call block in a loop, auto-escape in an if, top level) under 15 recursion limits from 500 down to 6, so that calls are also refused at their entry; if the host itself fits the limit, the output must be exactly the caller's names, loop fields, captures and escape mode as they were, with the fallback in place of the failed call.",
+        text="For every generated program (complete depth-1 space with blocks, includes, macros, call blocks, set/filter/autoescape/with blocks, recursive and filtered loops and break/continue, in three wrappings: plain with sentinel text, as child block under extends, as included template; a third of the depth-2 space quick / all of it plus a stride of depth 3 thorough; 17 hand-written shapes; a scope-contents family (6 scope-opening constructs alone and in pairs x 10 carriers that open no scope of their own - if/else arms, else bodies of empty and fully filtered loops, filter, autoescape, combinations - x 5 ways of binding a shadowing and a new name: afterwards the shadowed name must be back and the new one gone); every way of leaving a loop by break / continue, unconditional and conditional, through every sequence of 1..2 (thorough 3) nested scoped constructs out of {with, set block, filter block, autoescape on, autoescape off, if, call block}) each instruction stream and each entry point (main, every block, every macro body) is explored exhaustively by BFS over abstract states (pc, operand stack of Opaque|Int, frame kinds with loop iteration count and recursion return, capture stack, auto-escape depth, extends-pending, recursion depth) with every conditional jump, short-circuit jump and Iterate taken both ways; invariants on every state/transition: frame/capture/escape pops hit something the same evaluation pushed and of the right kind, no operand pop below the entry height, everything balanced at every end, every reachable state can reach an end. The model is bound to the code: each program is rendered under 3 contexts with probes recording every executed instruction, and every concrete trace must be a path of the explored abstract graph (same pc, operand height, frame kinds, capture and auto-escape depth at every step); real evaluations must also leave frames, captures and the auto-escape mode as they found them and a sentinel after the outermost construct must reach the output. The abstract machine also requires that no operand is left on the stack when a stream ends (the undefined left by a discarding capture excepted), and the hand-written shapes include recursive loops with else branches. Handled errors (945 programs): 9 callees (macros failing deep inside nested constructs, under auto-escaping switched off or on, or in a nested macro, a macro recursing until the limit refuses it, blocks rendered through the state, two succeeding controls) are called by a host function that swallows the failure, from 7 kinds of places (with+for, set block under a filter, macro body, call block in a loop, auto-escape in an if, auto-escape off inside on, top level) under 15 recursion limits from 500 down to 6, so that calls are also refused at their entry; if the host itself fits the limit, the output must be exactly the caller's names, loop fields, captures and escape mode as they were, with the fallback in place of the failed call.",
         note="Bounds: loops iterate 0..2 times, loop recursion nests <= 3. Include/CallBlock/FastSuper/macro calls are atomic in the caller and each callee stream is explored on its own. A conformance failure is a machinery error (key MACHINERY:conformance). `do` and *args calls are outside the alphabet.",
         design_ref="2/C05",
     ),
@@ -165,7 +165,7 @@ CHECKS = {
         level="exploration",
         engine="E1-enum",
         technique="bounded-exhaustive enumeration of the complete (kind,len,start,stop,step) box against a transcribed CPython slice-index oracle",
-        text="Every point of the box the property quantifies over (10 kinds - ASCII and multi-byte strings in inline, shared-heap and safe-string storage, list, tuple, sized and unsized lazy iterable, bytes, lazily concatenated / repeated / reversed lists - x len 0..=6 x 22 start x 22 stop x 12 step values, literal and variable operand forms, plus all subscripts) is evaluated through Expression::eval and compared with Python's slice.indices semantics and the result-kind rule; the box contains every relation between bounds that the implementation's case analysis distinguishes, so a pass is a complete small-scope statement, not a sample. Every slice result is also used as an operand: its |length, [-1], [-2:] and [::-1] must agree with the elements it produced.",
+        text="Every point of the box the property quantifies over (13 kinds - ASCII and multi-byte strings in inline, shared-heap and safe-string storage, list, tuple, sized and unsized lazy iterable, bytes, lazily concatenated / repeated / reversed lists - x len 0..=6 x 22 start x 22 stop x 12 step values, every bound and key in 5 forms: written in the source, or a variable holding the integer stored as i64, i128, u64 or u128 (what |int, serde and the embedding program produce), plus all subscripts) is evaluated through Expression::eval and compared with Python's slice.indices semantics and the result-kind rule; the box contains every relation between bounds that the implementation's case analysis distinguishes, so a pass is a complete small-scope statement, not a sample. Every slice result is also used as an operand: its |length, [-1], [-2:] and [::-1] must agree with the elements it produced.",
         note="Trusted: the 20-line transcription of PySlice_AdjustIndices in the harness. Bounds that do not fit i64 are rejected by the engine with an error and are outside the box.",
         design_ref="2/C09",
     ),
